@@ -422,5 +422,25 @@ impl FixtureDatabase {
 @*/
 }
 
+/// H3 at the database level: is_fixture_imported_in_file (abstraction imported_in, used by the resolver) agrees with
+/// membership in get_imported_fixtures (abstraction imported_set, used by the view).  A HYPOTHESIS of the
+/// agreement lemma — both are abstract callee contracts here; relating them is the imports unit's business.
+pub open spec fn imports_consistent(db: &FixtureDatabase, n: Seq<char>) -> bool {
+    forall|c: PV| #[trigger] imported_in(db.file_cache.m(), db.defs(), n, c) == imported_set(db.file_cache.m(), db.defs(), c).contains(n)
+}
+//@tags C05
+/// (b) stated on the database: what compute_available_fixtures lists for name n from `file` is what
+/// find_closest_definition(file, n) returns — under H1, H3, H4
+pub proof fn lemma_C05_b_db(db: &FixtureDatabase, file: PV, n: Seq<char>)
+    requires at_most_one_in(bucket(db.defs(), n), file), imports_consistent(db, n), pv_has_parent(file) && file.len() > 0,
+    ensures avail_pick(db.avv(), file, n) == op_resolve(bucket(db.defs(), n), file, db.prov(n), fs_true())
+{
+    let v = db.avv(); let prov = db.prov(n);
+    assert forall|c: PV| #[trigger] prov(c) == (av_gate(v, c) && (v.imp)(c).contains(n)) by {
+        assert(imported_in(db.file_cache.m(), db.defs(), n, c) == imported_set(db.file_cache.m(), db.defs(), c).contains(n));
+    }
+    lemma_C05_b_view_agrees_with_goto(v, file, prov, n);
+}
+
 } // verus!
 fn main() {}
